@@ -220,6 +220,58 @@ def tiny_changes(quick):
     return viol, n
 
 
+def component_state_copies(quick):
+    """copies of objects whose *components* hold state beyond their parameters: the callable growth function of every growth model with
+    use_splined_growth=True (computed before copying), and the CAMB transfer model with its Eisenstein-Hu extrapolation helper; every copy
+    kind, then a change on the copy that makes the copied component run again"""
+    realfuzz.init()
+    viol, n = [], 0
+    from hmf.density_field.transfer import Transfer
+    kinds = (("deepcopy", copy.deepcopy), ("clone", lambda o: o.clone()), ("pickle", lambda o: pickle.loads(pickle.dumps(o))))
+    with warnings.catch_warnings():
+        warnings.simplefilter("ignore")
+        np.seterr(all="ignore")
+        for gm in ("GrowthFactor", "Carroll1992", "GenMFGrowth"):
+            base = dict(transfer_model="EH", lnk_min=-8.0, lnk_max=4.0, dlnk=0.25, growth_model=gm, use_splined_growth=True, z=1.0, cosmo_model="Planck13")
+            for how, f in kinds:
+                o = Transfer(**base)
+                p0 = o.power.copy()
+                n += 1
+                script = [f"o = Transfer(growth_model={gm!r}, use_splined_growth=True, z=1.0, ...); o.power", f"c = {how}(o); c.power; c.update(z=2.5); c.power"]
+                try:
+                    c = f(o)
+                    ok1 = np.array_equal(c.power, p0)
+                    c.update(z=2.5)
+                    ok2 = np.allclose(c.power, Transfer(**dict(base, z=2.5)).power, rtol=1e-12)
+                except Exception as e:
+                    viol.append({"key": f"Transfer/splined-growth/{gm}/{how}/raises", "what": f"{how} of a Transfer with growth_model={gm}, use_splined_growth=True (growth already computed) fails: {type(e).__name__}: {str(e)[:120]}", "replay": {"kind": "c15", "script": script}})
+                    continue
+                if not (ok1 and ok2):
+                    viol.append({"key": f"Transfer/splined-growth/{gm}/{how}", "what": f"{how} of a Transfer with growth_model={gm}, use_splined_growth=True: outputs of the copy differ from the original's / a fresh object's after update(z=2.5)", "replay": {"kind": "c15", "script": script}})
+        try:
+            import camb  # noqa
+            basec = dict(transfer_model="CAMB", transfer_params={"extrapolate_with_eh": True}, lnk_min=-8.0, lnk_max=3.0, dlnk=0.25)
+            for how, f in (kinds[:2] if quick else kinds):
+                o = Transfer(**copy.deepcopy(basec))
+                p0 = o.power.copy()
+                n += 1
+                script = ["o = Transfer(transfer_model='CAMB', transfer_params={'extrapolate_with_eh': True}, ...); o.power", f"c = {how}(o); c.update(lnk_max=4.0, dlnk=0.2); c.power"]
+                try:
+                    c = f(o)
+                    ok1 = np.array_equal(c.power, p0)
+                    c.update(lnk_max=4.0, dlnk=0.2)
+                    fr = Transfer(**dict(copy.deepcopy(basec), lnk_max=4.0, dlnk=0.2)).power
+                    ok2 = c.power.shape == fr.shape and np.allclose(c.power, fr, rtol=1e-9)
+                except Exception as e:
+                    viol.append({"key": f"Transfer/CAMB-eh-extrapolation/{how}/raises", "what": f"{how} of a computed CAMB transfer with extrapolate_with_eh=True, then a grid change on the copy, fails: {type(e).__name__}: {str(e)[:120]}", "replay": {"kind": "c15", "script": script}})
+                    continue
+                if not (ok1 and ok2):
+                    viol.append({"key": f"Transfer/CAMB-eh-extrapolation/{how}", "what": f"{how} of a computed CAMB transfer with extrapolate_with_eh=True: the copy's power differs from the original's / from a fresh object's after a grid change", "replay": {"kind": "c15", "script": script}})
+        except ImportError:
+            pass
+    return viol, n
+
+
 def dict_changes(quick):
     """clone(**changes) with a non-empty dict-valued change must leave the original's parameters (deep comparison) and its
     later recomputations untouched"""
@@ -340,7 +392,7 @@ def run(ctx):
             if not any(y["key"] == x["key"] for y in out["violations"]):
                 x["replay"] = {"kind": "c15", "script": script, "cls": cn, "camb": camb}
                 out["violations"].append(x)
-    for fn in (none_changes, model_changes, tiny_changes, dict_changes, camb_user_params):
+    for fn in (none_changes, model_changes, tiny_changes, component_state_copies, dict_changes, camb_user_params):
         v, k = fn(quick)
         n += k
         for x in v:
